@@ -79,7 +79,7 @@ Definition del_exp (s : state) (id h : Z) : state :=
 (** MsgCallService.ValidateBasic (ValidateRequest) + Keeper.CreateRequestContext with state RUNNING *)
 Definition call (s : state) (id consumer timeout : Z) (repeated : bool) (freq total : Z) (rest : outcome)
   : state * outcome :=
-  if (timeout <=? 0) || (max_timeout <? timeout) then (s, Rej)
+  if (timeout <=? 0) || (max_timeout <? timeout) || (freq <? 0) then (s, Rej)      (* freq is a uint64 *)
   else if repeated && (((0 <? freq) && (freq <? timeout)) || (total <? -1) || (total =? 0)) then (s, Rej)
   else if has id (ctxs s) then (s, Rej)
   else match rest with
